@@ -504,6 +504,24 @@ func (e *Enc) analyzeCFG() {
 		li.name = e.rangeOperandName(h)
 		e.loopList = append(e.loopList, li)
 	}
+	// loops that share an operand name (or have none: plain `for` loops are named "for") are
+	// distinguished by their occurrence in source order: name#1, name#2, ...
+	{
+		count := map[string]int{}
+		for _, li := range e.loopList {
+			if li.name == "" {
+				li.name = "for"
+			}
+			count[li.name]++
+		}
+		seen := map[string]int{}
+		for _, li := range e.loopList {
+			if count[li.name] > 1 || li.name == "for" {
+				seen[li.name]++
+				li.name = fmt.Sprintf("%s#%d", li.name, seen[li.name])
+			}
+		}
+	}
 	if e.fc != nil {
 		for nm := range e.fc.LoopsOver {
 			n := 0
@@ -513,7 +531,7 @@ func (e *Enc) analyzeCFG() {
 				}
 			}
 			if n != 1 {
-				e.fail("contract addresses `loop over %s`, but the function has %d loops ranging over %s", nm, n, nm)
+				e.fail("contract addresses `loop over %s`, but the function has no such loop (loops: %s)", nm, e.loopNames())
 			}
 		}
 	}
@@ -836,6 +854,14 @@ func (e *Enc) loopContract(li *loopInfo) *LoopContract {
 		}
 	}
 	return e.fc.Loops[li.ordinal]
+}
+
+func (e *Enc) loopNames() string {
+	var ns []string
+	for _, li := range e.loopList {
+		ns = append(ns, li.name)
+	}
+	return strings.Join(ns, ", ")
 }
 
 // tag names a loop in obligation names: by the range operand when the contract addresses it that way
